@@ -416,6 +416,31 @@ func init() {
 			panic(targetPanic{iface{types.Typ[types.String], name + " called"}})
 		}
 	}
+	// flag definitions: a fresh variable holding the default value
+	for _, n := range []string{"Bool", "Int", "Int64", "Uint", "Uint64", "String", "Duration", "Float64"} {
+		intrinsics["flag."+n] = func(fr *frame, args []value) value {
+			cell := new(value)
+			*cell = args[1]
+			return cell
+		}
+	}
+	// time.Local = UTC
+	intrinsics["time.initLocal"] = func(fr *frame, args []value) value {
+		tp := fr.i.P.Pkgs["time"]
+		utc, loc := fr.i.globals[tp.Var("utcLoc")], fr.i.globals[tp.Var("localLoc")]
+		if utc != nil && loc != nil {
+			t := deref(tp.Var("utcLoc").Type())
+			store(t, *loc2ptr(loc), load(t, *loc2ptr(utc)))
+		}
+		return nil
+	}
+	// the clock: deterministic, strictly increasing instants (1.5 ms per call)
+	intrinsics["time.runtimeNow"] = func(fr *frame, args []value) value {
+		fr.p.clock++
+		ns := fr.p.clock * 1_500_000
+		return tuple{int64(1700000100) + ns/1_000_000_000, int32(ns % 1_000_000_000), int64(1_000_000_000) + ns}
+	}
+	intrinsics["time.now"] = intrinsics["time.runtimeNow"]
 	intrinsics["time.runtimeNano"] = func(fr *frame, args []value) value { return int64(1) }
 	intrinsics["syscall.runtime_envs"] = func(fr *frame, args []value) value { return []value(nil) }
 	intrinsics["os.runtime_args"] = func(fr *frame, args []value) value { return []value{"pkappa2"} }
@@ -529,3 +554,5 @@ func callerPos(fr *frame) string {
 }
 
 var _ = token.NoPos
+
+func loc2ptr(p *value) **value { return &p }
